@@ -61,7 +61,10 @@ the converse, histories through `OnceF.history_c02`.
 * The converse is stated with the stamp `recomputedAt n = s.stabNum` ("`n` was recomputed in round `s.stabNum`"), not with membership of `n` in `drainTrace`: that a VALID node
   stamped in this round is in the trace (the converse of `C02Full`'s "every node of the trace is stamped") is NOT proved here (`invalidate_node` also writes `recomputed_at := now`
   on the dying nodes, so the frame needs validity).  Since all stamps are `< s.stabNum` when the drain starts and `recomputeOne` is the only writer of `recomputedAt` on a node that
-  stays valid, this is the expected reading, but the frame lemma is missing.
+  stays valid, this is the expected reading, but the frame lemma is missing.  `Proofs/GateF5…8` (NOT imported here) contain an unfinished attempt: the relation `GateF.RR ex` (invalid nodes stay
+  invalid; every node outside `ex` keeps `recomputedAt` or is invalid afterwards), proved for every SUCCESSFUL run (`GateF.POk`) of every function reachable from `recomputeOne` —
+  `invalidateNode` (`POk.invalidateNode`), `propagateInvalidity`, `changeChildBindRhs`, `elabTemplate`, `runEffects`, `maybeChangeValue`, … — but NOT for `recomputeOne` itself (tactic
+  timeout), and not composed along the drain.
 * WHICH verdict the cutoff gives (`changedAt` stamped iff `shouldCutoff` is false or there was no old value) is the local theorem of `Props/C06`; for `depend_on` nodes see
   `C06History.dependOn_verdict` (finding FC1).  It is not re-proved here for the kinds of the combined fragment; the map_ref / map_with_old nodes do not call `should_cutoff` (they
   propagate iff `didChange` / the machine's flag).
